@@ -564,7 +564,7 @@ func execute(cs Case) (res Result) {
 		}
 		return res
 	}
-	full := cs.Cfg.Handlers == "all"
+	full := cs.Cfg.Handlers != "describeonly" // norecord / nopause still serve SETUP and PLAY
 
 	// ---- the attack, step by step; the second connection advances one stage after every attack step
 	plaintext := false
